@@ -13,5 +13,5 @@ CONSTANTS
   WireVersions <- VersionsSpread
   DupShapes <- ShapesLite
 INVARIANTS TypeOK PRedactedIffMismatch PRedactedNoop PRedactedForm PIntact PIdSigIff PSigsTogether
-  PSpellingNeutral PCaseIsAnotherKey PDupOneReading PDupGenuineOnly PDupNoReadingHash PDupForgerOnly PDupSummaries Emit
+  PSpellingNeutral PCaseIsAnotherKey PVariantIsAnotherKey PDupOneReading PDupGenuineOnly PDupNoReadingHash PDupForgerOnly PDupSummaries Emit
 CHECK_DEADLOCK FALSE
